@@ -59,3 +59,55 @@ contract(
     options={"asserts": [("mode-test-is-owner-exec-bit", "if current_mode_normalized != expected_mode_normalized:",
                           [f"not ({CASE}) or ((current_mode_normalized != expected_mode_normalized) == (({OWNER_X}) != (entry_mode == 33261)))"])]},
 )
+
+
+# ---- a branch switch leaves the index describing the target tree, path by path ---------------------------------------------
+# The Index is viewed abstractly as a map path -> entry (its __getitem__/__setitem__/__delitem__ ARE that map on
+# canonical paths; assumed).  Whatever the file system does (every os / shutil call is an abstract primitive that may
+# raise), on NORMAL return of a transition the map has changed at `path` only, in the way the target tree demands:
+#   _transition_to_absent      the path has left the index (also when the file was already missing, also when a directory
+#                              that took its place could not be removed);
+#   _transition_to_file / _transition_to_submodule   the path's entry carries the target's object id.
+class_spec(file="<abstract>", cls="TargetEntryAbs", fields={"mode": "nat", "sha": "opaque", "path": "opaque"})
+_ABS = {
+    "os.listdir@abs18": ["path"], "shutil.rmtree@abs18": ["path"], "os.rmdir@abs18": ["path"],
+    "_remove_file_with_readonly_handling@abs18": ["path"], "_remove_empty_parents@abs18": ["path", "stop_at"],
+    "_ensure_parent_dir_exists@abs18": ["full_path"], "ensure_submodule_placeholder@abs18": ["repo", "path"],
+    "build_file_from_blob@abs18": ["blob", "mode", "target_path", "honor_filemode", "tree_encoding", "symlink_fn"],
+    "_check_symlink_matches@abs18": ["full_path", "repo_object_store", "entry_sha"],
+    "_check_file_matches@abs18": ["repo_object_store", "full_path", "entry_sha", "entry_mode", "current_stat", "honor_filemode", "blob_normalizer", "tree_path"],
+}
+for _f, _ps in _ABS.items():
+    contract(prop=["C18"], file="<abstract>", func=_f, trusted=True, params={p_: "opaque" for p_ in _ps}, returns="opaque", raises={ANY: None},
+             note="file-system effect: abstract (any result, may raise); does not touch the index")
+contract(prop=["C18"], file="<abstract>", func="index_entry_from_stat@abs18", trusted=True, params={"stat_val": "opaque", "hex_sha": "opaque"},
+         returns="opaque", raises={ANY: None}, ensures=["uf('entry_sha', result) is hex_sha"],
+         note="index_entry_from_stat records the given object id (dulwich/index.py: sha=hex_sha)")
+_FS = {"os.listdir": "os.listdir@abs18", "shutil.rmtree": "shutil.rmtree@abs18", "os.rmdir": "os.rmdir@abs18", "os.lstat": "os.lstat@abs"}
+_CC = {k: ("<abstract>", k + "@abs18") for k in ("_remove_file_with_readonly_handling", "_remove_empty_parents", "_ensure_parent_dir_exists",
+                                                 "ensure_submodule_placeholder", "build_file_from_blob", "_check_symlink_matches", "_check_file_matches",
+                                                 "index_entry_from_stat")}
+contract(
+    prop=["C18"], file=IX, func="_transition_to_absent",
+    params={"repo": "opaque", "path": "bytes", "full_path": "bytes", "current_stat": "obj:StatAbs|None", "index": "dict[bytes,opaque]"},
+    returns="None", raises={ANY: None}, modifies=["index"],
+    ensures=["dict_del(old(index), index, path) if dict_has(old(index), path) else dict_same(old(index), index)"],
+    options={"primitives": _FS, "callee_contracts": _CC},
+)
+_SET_AT = ["dict_set(old(index), index, path, dict_get(index, path))", "uf('entry_sha', dict_get(index, path)) is entry.sha"]
+contract(
+    prop=["C18"], file=IX, func="_transition_to_file",
+    params={"object_store": "opaque", "path": "bytes", "full_path": "bytes", "current_stat": "obj:StatAbs|None", "entry": "obj:TargetEntryAbs",
+            "index": "dict[bytes,opaque]", "honor_filemode": "bool", "symlink_fn": "opaque", "blob_normalizer": "opaque", "tree_encoding": "str"},
+    returns="None", raises={ANY: None}, modifies=["index"],
+    ensures=_SET_AT,
+    options={"primitives": _FS, "callee_contracts": _CC},
+)
+contract(
+    prop=["C18"], file=IX, func="_transition_to_submodule",
+    params={"repo": "opaque", "path": "bytes", "full_path": "bytes", "current_stat": "obj:StatAbs|None", "entry": "obj:TargetEntryAbs",
+            "index": "dict[bytes,opaque]"},
+    returns="None", raises={ANY: None}, modifies=["index"],
+    ensures=_SET_AT,
+    options={"primitives": _FS, "callee_contracts": _CC},
+)
